@@ -328,6 +328,9 @@ func (g *G) history(rid int, c histCfg, steps int) {
 	}
 	probe := func() {
 		g.emit("routes %d", rid)
+		if g.chance(0.3) {
+			g.emit("dump %d", rid)
+		}
 		for i := 0; i < c.probes; i++ {
 			m := g.pick(allMethods)
 			if g.chance(c.oddRequest) {
@@ -411,6 +414,9 @@ func (g *G) history(rid int, c histCfg, steps int) {
 				p := g.pick(pool)
 				if len(p) > 0 {
 					pre = p[:1+g.intn(len(p))]
+				}
+				if cuts := tokenCuts(p); len(cuts) > 0 && g.chance(0.5) {
+					pre = p[:cuts[g.intn(len(cuts))]] // just inside, at the end of, or one past a {token}
 				}
 			}
 			g.emit("clean %d %s", rid, encB(pre))
@@ -721,7 +727,7 @@ func streamURL(g *G) { // C10
 
 var corsOrigins = [][]string{nil, {"https://a.example"}, {"https://a.example", "https://b.example"}, {"*"}, {"https://a.example", "*"}}
 var corsAllowH = [][]string{nil, {"Content-Type"}, {"Content-Type", "X-Token"}, {"*"}, {"x-lower"}, {"Content-Type", "X-UID", "X-Ua"}, {"authorization", "X-Token", "Accept"}, {"X-b", "X-B1", "x-a", "X-C"}, {"Zeta", "alpha", "Beta", "gamma", "Delta"}}
-var corsExposed = [][]string{nil, {"X-A"}, {"X-A", "X-B"}}
+var corsExposed = [][]string{nil, {"X-A"}, {"X-A", "X-B"}, {"*"}, {"X-Total-Count", "*", "ETag"}, {"*", "X-A"}, {"x-lower", "X-UPPER"}}
 
 func streamCors(g *G) { // C11, C12
 	rid := 1
@@ -1153,6 +1159,25 @@ func streamTrace(g *G) { // C18
 	}
 }
 
+// tokenCuts lists the cut positions just inside, at the end of and one past every {token} of p.
+func tokenCuts(p string) []int {
+	var out []int
+	for i := 0; i < len(p); i++ {
+		if p[i] == '{' {
+			if i+1 < len(p) {
+				out = append(out, i+1)
+			}
+			if j := strings.IndexByte(p[i:], '}'); j > 0 {
+				out = append(out, i+j, i+j+1)
+				if i+j+2 <= len(p) {
+					out = append(out, i+j+2)
+				}
+			}
+		}
+	}
+	return out
+}
+
 func streamFacade(g *G) { // C19: the same program through façades (router A) and desugared (router B)
 	rid := 1
 	for !g.full() {
@@ -1179,10 +1204,30 @@ func streamFacade(g *G) { // C19: the same program through façades (router A) a
 			g.emit("%s", fa)
 			g.emit("%s", fb)
 		}
+		wide := ""
+		if g.chance(0.5) { // >= 5 literal siblings (first-byte index) next to parameter children, then façades ending in a token
+			wide = g.pick([]string{"/users/", "/w/", "/"})
+			n := 5 + g.intn(3)
+			for i := 0; i < n; i++ {
+				p := wide + string(rune('a'+i)) + g.pick([]string{"", "ll", "/1"})
+				pool = append(pool, p)
+				both(fmt.Sprintf("handle %d %s %d %%- %s", a, encB(p), nextH, encL([]string{"GET"})), fmt.Sprintf("handle %d %s %d %%- %s", b, encB(p), nextH, encL([]string{"GET"})))
+				nextH++
+			}
+			for _, t := range []string{"{uid}", "{uid}/posts", "{n:\\d+}/e"}[:1+g.intn(3)] {
+				p := wide + t
+				pool = append(pool, p)
+				both(fmt.Sprintf("handle %d %s %d %%- %s", a, encB(p), nextH, encL([]string{"GET"})), fmt.Sprintf("handle %d %s %d %%- %s", b, encB(p), nextH, encL([]string{"GET"})))
+				nextH++
+			}
+		}
 		for s := 0; s < 10+g.intn(15); s++ {
 			switch k := g.intn(10); {
 			case k < 3 || len(facs) == 0:
 				pat := g.pick([]string{"/p", "/p/", "/q", "", "/users/{uid}", "/a", "/p/{id", "/x{"})
+				if wide != "" && g.chance(0.6) {
+					pat = wide + g.pick([]string{"{uid}", "{uid", "{uid}/", "{n:\\d+}", "a", "{"})
+				}
 				ms := g.mwList()
 				if len(ms) == 0 && g.chance(0.6) {
 					ms = []int{1 + g.intn(9), 1 + g.intn(9)}
@@ -1335,6 +1380,7 @@ func streamIsolation(g *G) { // C07: decoys interleaved with an observed instanc
 		}
 		g.routerLine(rid, routerOpt{name: "obs", trace: g.chance(0.5)})
 		g.serveLine("serve", rid, "OPTIONS", "*", "", nil)
+		var isoPool []string
 		for s := 0; s < 10; s++ {
 			if g.chance(0.7) {
 				d := 1000 + g.intn(3)
@@ -1349,16 +1395,92 @@ func streamIsolation(g *G) { // C07: decoys interleaved with an observed instanc
 					g.emit("hosts %d %s", d, encL([]string{"decoy.example.com"}))
 				}
 			}
-			g.emit("handle %d %s %d %%- %s", rid, encB(g.pattern(false)), s+1, encL(g.methodList(true)))
+			op := g.pattern(false)
+			if g.chance(0.3) {
+				op = g.pick([]string{"/posts/{id:\\d+}", "/items/{id:(a|b)x+}/list", "/t/{-n:[a-z]+}.html", "/u/{n:[a-z]+}.html", "/v/{-id:\\d+}"})
+			}
+			if g.chance(0.5) { // a decoy registers the twin first: same name, rule and suffix, the other capture mode
+				d := 1000 + g.intn(3)
+				g.routerLine(d, routerOpt{name: "decoy"})
+				g.emit("handle %d %s %d %%- %s", d, encB(twinPattern(op)), s+1, encL([]string{"GET"}))
+			}
+			isoPool = append(isoPool, op)
+			g.emit("handle %d %s %d %%- %s", rid, encB(op), s+1, encL(g.methodList(true)))
 			g.emit("routes %d", rid)
 			g.serveLine("serve", rid, "OPTIONS", "*", "", nil)
-			g.serveLine("serve", rid, "GET", g.pathFor(nil), "", nil)
+			g.serveLine("serve", rid, "GET", g.pathFor(isoPool), "", nil)
+			g.serveLine("serve", rid, "GET", g.instantiate(op, isoValues), "", nil)
 		}
 		rid++
 	}
 }
 
+// twinPattern toggles the ignore mark of every {name...} token: {id:r} <-> {-id:r}.
+var isoValues = []string{"5", "42", "2024", "z", "zq", "axx", "bx", "ax"}
+
+func twinPattern(p string) string {
+	var b strings.Builder
+	for i := 0; i < len(p); i++ {
+		b.WriteByte(p[i])
+		if p[i] == '{' {
+			if i+1 < len(p) && p[i+1] == '-' {
+				i++
+			} else {
+				b.WriteByte('-')
+			}
+		}
+	}
+	return b.String()
+}
+
+func streamUnit(g *G) { // unit level: the parser and the segment matcher through the verif hooks
+	ic := encKVs(icptTable)
+	for !g.full() {
+		useIc := g.chance(0.5)
+		p := g.pattern(useIc)
+		if g.chance(0.2) {
+			p = g.pick(malformed)
+		}
+		if g.chance(0.15) {
+			p = randBytes(g, 1+g.intn(14))
+		}
+		g.emit("u-split %s", encB(p))
+		g.emit("syntax %s", encB(p))
+		q := g.mutatePattern(p, useIc)
+		g.emit("u-lp %s %s", encB(p), encB(q))
+		g.emit("u-lp %s %s", encB(q), encB(p))
+		table := "%-"
+		if useIc {
+			table = ic
+		}
+		// pieces as NewSegment sees them, and cut versions of them
+		pieces := []string{p, q}
+		for i := 0; i < len(p); i++ {
+			if p[i] == '{' && i > 0 {
+				pieces = append(pieces, p[i:], p[:i])
+			}
+		}
+		for _, piece := range pieces {
+			if piece == "" {
+				continue
+			}
+			if g.chance(0.3) && len(piece) > 1 {
+				piece = piece[:1+g.intn(len(piece)-1)]
+			}
+			g.emit("u-seg %s %s", table, encB(piece))
+			for k := 0; k < 3; k++ {
+				path := g.instantiate(piece, trickyValues)
+				if g.chance(0.5) {
+					path = g.mutatePath(path)
+				}
+				g.emit("u-match %s %s %s", table, encB(piece), encB(path))
+			}
+		}
+	}
+}
+
 var streams = map[string]func(*G){
+	"unit": streamUnit,
 	"dispatch": streamDispatch, "resolve": streamResolve, "lifecycle": streamLifecycle, "allow": streamAllow,
 	"crash": streamCrash, "reject": streamReject, "onion": streamOnion, "url": streamURL, "cors": streamCors,
 	"group": streamGroup, "hosts": streamHosts, "version": streamVersion, "fault": streamFault, "head": streamHead,
